@@ -130,3 +130,17 @@ Proof.
   unfold opreturn_lines. induction delivered as [|hb r IH]; [reflexivity|]. cbn [filter flat_map].
   destruct (p hb); cbn [flat_map]; rewrite ?app_nil_r, IH; reflexivity.
 Qed.
+
+(* ---------- C17: the model's open-file trace is the iterated `visit` of Drive.Fds ---------- *)
+Lemma last_nonempty_indep {A} (l:list A) a b : l <> [] -> last l a = last l b.
+Proof. induction l as [|x r IH]; [congruence|]. intros _. destruct r; [reflexivity|]. cbn [last]. apply IH. discriminate. Qed.
+Lemma open_trace_last ci : forall n s o,
+  last (map snd (open_trace ci o (Drive.heights s n))) o = Drive.visits (file_of_height ci) (maxh_of_file ci) o s n.
+Proof.
+  induction n as [|n IH]; intros s o; [reflexivity|]. rewrite Drive.heights_S. cbn [open_trace map Drive.visits].
+  set (o' := Drive.visit (file_of_height ci) (maxh_of_file ci) o s).
+  rewrite <- (IH (s + 1) o'). destruct (map snd (open_trace ci o' (Drive.heights (s + 1) n))) as [|x r] eqn:E; [reflexivity|].
+  cbn [last]. destruct r as [|y r']; [reflexivity|]. apply last_nonempty_indep. discriminate.
+Qed.
+Lemma open_trace_heights ci : forall hs o, map fst (open_trace ci o hs) = hs.
+Proof. induction hs as [|h r IH]; intro o; [reflexivity|]. cbn. now rewrite IH. Qed.
